@@ -23,7 +23,7 @@ def main():
             "evidence_file": f"/verif/evidence/{pid}.json",
             "replay_cmd_template": "/verif/bin/hv replay {path}",
             "engine": "gosym",
-            "level_claimed": {"category": "model_checking", "text": c["text"], "design_ref": c.get("ref", "DESIGN.md §3 " + pid)},
+            "level_claimed": {"category": "model_checking", "text": c["text"], "design_ref": c.get("ref", "DESIGN.md §A.4 " + pid + " (as built); §3 " + pid + " (original plan)")},
             "level_note": c["note"],
             "technique": c.get("technique", TECH),
         })
